@@ -255,6 +255,36 @@ pub fn test(c: &RawCase, ev: &mut Ev, opts: &ModelOpts) -> Result<(), Violation>
             }
         }
     }
+    // (3) every fourth program: everything after the prelude as the body of a macro that is called once
+    // with one argument; lines of unselected branches may use parameters the call does not pass
+    if ev.evaluations % 4 == 1 {
+        let canon = render(&prog, Style::CANON).text;
+        if !canon.contains(".macro") {
+            let lines: Vec<&str> = canon.lines().collect();
+            if let Some(split) = lines.iter().position(|l| l.trim_start().starts_with(".define CD0")) {
+                let mut w = String::new();
+                for l in &lines[..=split] {
+                    w.push_str(l);
+                    w.push('\n');
+                }
+                w.push_str(".macro c08_wrap\n");
+                for l in &lines[split + 1..] {
+                    if l.contains("this is not assembly") {
+                        w.push_str("ldi r16, @7 ; a parameter the call does not pass\n");
+                    } else if l.contains("undefined_macro_42") {
+                        w.push_str(".dw @0, @3\n");
+                    } else {
+                        w.push_str(l);
+                        w.push('\n');
+                    }
+                }
+                w.push_str(".endm\nC08_Wrap 1\n");
+                ev.class("construct-inside-a-macro-body");
+                let chk = Check::Same { a: canon.clone(), b: w, messages: true, allow_both_fail: false };
+                chk.eval().map_err(|why| Violation { sig: format!("c08:in-macro-body:{}:{}", sig_tail, kind_of(&why)), what: why, replay: chk.to_json() })?;
+            }
+        }
+    }
     Ok(())
 }
 
@@ -350,5 +380,5 @@ pub fn run(ctx: &Ctx) -> Result<Ev, String> {
 }
 
 pub fn rule() -> String {
-    "conditional trees: chains of 1–4 arms (+ optional .else), nested to depth 3, conditions on literals, .equ constants (comparisons, !, &&) and .ifdef/.ifndef of .define flags under a generated truth assignment (incl. several true arms); selected bodies hold unique markers (.dw k, .message/.warning, .equ and label definitions read back after the construct); unselected bodies hold poison (unparsable text, .error, .message, undefined macro, out-of-range operands, duplicate label, redefinition of a symbol used later, .device, missing .include, balanced nested conditionals with unevaluable conditions, .macro/.endm, .exit, .define). Deterministic part: every chain shape with ≤3 arms × every truth assignment × optional .else × a nested chain in each position. Oracles: reference model (image, messages with line numbers, sizes) and metamorphic equality with the unselected lines blanked and deleted. Non-trivial = an .elif after a taken arm, or ≥2 .elif, or a nested conditional inside a taken arm followed by .else/.elif; distinct = distinct program text".into()
+    "conditional trees (every fourth one also with everything after the prelude as the body of a macro called once, unselected lines using parameters the call does not pass): chains of 1–4 arms (+ optional .else), nested to depth 3, conditions on literals, .equ constants (comparisons, !, &&) and .ifdef/.ifndef of .define flags under a generated truth assignment (incl. several true arms); selected bodies hold unique markers (.dw k, .message/.warning, .equ and label definitions read back after the construct); unselected bodies hold poison (unparsable text, .error, .message, undefined macro, out-of-range operands, duplicate label, redefinition of a symbol used later, .device, missing .include, balanced nested conditionals with unevaluable conditions, .macro/.endm, .exit, .define). Deterministic part: every chain shape with ≤3 arms × every truth assignment × optional .else × a nested chain in each position. Oracles: reference model (image, messages with line numbers, sizes) and metamorphic equality with the unselected lines blanked and deleted. Non-trivial = an .elif after a taken arm, or ≥2 .elif, or a nested conditional inside a taken arm followed by .else/.elif; distinct = distinct program text".into()
 }
